@@ -143,7 +143,9 @@ def run(ctx):
     # ---------------- E2 / E3
     langs = core.run_cases(ctx, "harness.export", "export_locales", [{}], nproc=1)[0]["langs"]
     cases = core.replay_cases(ctx) or make_cases(ctx, langs)
-    results = core.run_cases(ctx, "harness.lib", "call_parse", cases)
+    # a share of the cases runs on parsers that were all constructed before any of them was used (state shared behind
+    # the constructor would surface as another case's result)
+    results = core.run_cases_prebuilt(ctx, cases, lambda i: i % 5 == 0 and not ctx.replay and not cases[i].get("poison"), size=5)
     records = []
     nabs = 0
     for i, (c, r) in enumerate(zip(cases, results)):
